@@ -832,7 +832,7 @@ func c13Streams(c *Ctx) error {
 	r := c.Rng.Fork()
 	codecs := c13Codecs(c.Thorough())
 	seqs := c13Seqs(c, r)
-	fullBudget := int64(6 << 20)
+	fullBudget := int64(4 << 20)
 	if c.Thorough() {
 		fullBudget = 64 << 20
 	}
@@ -890,7 +890,7 @@ func fpOf(b []byte) (int, uint64) {
 
 func c13Ckpt(c *Ctx) error {
 	r := c.Rng.Fork()
-	n := c.N(70, 500)
+	n := c.N(42, 480)
 	codecs := c13Codecs(c.Thorough())
 	for i := 0; i < n; i++ {
 		cr := r.Fork()
@@ -1069,7 +1069,7 @@ func c13Ckpt(c *Ctx) error {
 
 func c13Frames(c *Ctx) error {
 	r := c.Rng.Fork()
-	n := c.N(60, 600)
+	n := c.N(40, 600)
 	for i := 0; i < n; i++ {
 		cr := r.Fork()
 		withMagic := cr.Bool()
